@@ -135,6 +135,11 @@ func summaryAnnotation(c *Ctx) {
 	}
 	reach := an.Explore(fn, an.After(get), f, func(in ssa.Instruction) bool { return in == ssa.Instruction(set) })
 	r.Check(len(reach.Returns()) == 0, "PATH", key+"/refresh", c.InstrPos(set), "a differing annotation is always rewritten", "with a stored annotation that differs from the computed one a return is reachable without SetExtendedResourceSpec")
+	// and the stored annotation is always looked at: a pod that declares nothing may still carry a (copied, forged or
+	// outdated) annotation, which the node agent would enforce
+	r.Rule("PATH(summary annotation always compared): in mutateByExtendedResources no return is reachable before the stored annotation was read (whatever the containers declare - also nothing - the stored annotation is compared with the computed spec)")
+	r0 := an.Explore(fn, nil, nil, func(in ssa.Instruction) bool { return in == ssa.Instruction(get) })
+	r.Check(len(r0.Returns()) == 0, "PATH", key+"/always-compared", c.InstrPos(get), "the stored annotation is read on every path", "the function can return without looking at the stored annotation: a pod whose containers declare no batch resources keeps an annotation that claims some, and the node agent applies it")
 
 	if st := c.Fn("apis/extension", "", "SetExtendedResourceSpec"); st != nil {
 		// with a pod at hand, success means the annotation now says what the spec says (also an empty spec: it is how a
